@@ -238,6 +238,9 @@ func vfPeerClientMain() int {
 			continue
 		case "error":
 			resp.Result = &conformancev1.ClientCompatResponse_Error{Error: &conformancev1.ClientErrorResult{Message: "scripted client error"}}
+		case "error-empty":
+			// the error arm of the response with nothing (readable) in it is still "the client could not run the case"
+			resp.Result = &conformancev1.ClientCompatResponse_Error{Error: &conformancev1.ClientErrorResult{Message: []string{"", "\n", "  \r\n"}[answers%3]}}
 		case "deviate":
 			resp.Result = &conformancev1.ClientCompatResponse_Response{Response: &conformancev1.ClientResponseResult{
 				Payloads: []*conformancev1.ConformancePayload{{Data: []byte("scripted deviation")}}}}
